@@ -14,6 +14,7 @@ import (
 	"encoding/json"
 	"flag"
 	"fmt"
+	"github.com/youchainhq/go-youchain/consensus/solo"
 	"io/ioutil"
 	"os"
 	"path/filepath"
@@ -45,6 +46,7 @@ type Case struct {
 	Crash   []bool      `json:"crash,omitempty"` // enumerate the crash points of this batch (default: all)
 	Amp     int         `json:"amp,omitempty"`   // batches report ValueSize() multiplied by this (size thresholds fire early)
 	Big     bool        `json:"big,omitempty"`   // real-size case: oracle only (not sent to the Coq model), further block only where crash points are enumerated
+	Solo    bool        `json:"solo,omitempty"`  // the chain runs with the real consensus/solo engine (no header checks at all): oracle only
 	Comment string      `json:"comment,omitempty"`
 }
 
@@ -317,6 +319,10 @@ func (w *world) judge(bc *core.BlockChain, db *logDB) []string {
 		if h == (common.Hash{}) {
 			continue
 		}
+		if rawdb.ReadHeader(db, h, n) == nil || rawdb.ReadBody(db, h, n) == nil {
+			bad = append(bad, "canonical entry without a stored header and body")
+			break
+		}
 		id := w.blockID[h]
 		how := "made canonical by reorg without being executed"
 		if w.executed[id] {
@@ -402,6 +408,9 @@ func newChainOn(w *world, db *logDB) (bc *core.BlockChain, err error) {
 			err = fmt.Errorf("panic in NewBlockChain: %v", r)
 		}
 	}()
+	if w.solo {
+		return core.NewBlockChain(db, solo.NewSolo(), new(event.TypeMux), params.ArchiveNode, local.FakeDetailDB())
+	}
 	return core.NewBlockChain(db, newEngine(w.flags), new(event.TypeMux), params.ArchiveNode, local.FakeDetailDB())
 }
 
@@ -673,6 +682,22 @@ func (w *world) run(c Case, res *vf.Result, hits *[]interface{}) ([]stepRes, []d
 		for _, b := range sr.Bad {
 			addHit("after import: "+b, j, 0, "")
 		}
+		// the same database seen by a fresh process (nothing the running process remembers counts)
+		if !c.Big {
+			fdb := restore(db.dump())
+			if fbc, err := newChainOn(w, fdb); err != nil {
+				addHit("restart after import failed", j, 0, err.Error())
+			} else {
+				if fbc.CurrentBlock().Hash() != bc.CurrentBlock().Hash() {
+					addHit("after import: a fresh process over the same database has another head than the running one", j, 0,
+						fmt.Sprintf("fresh %d, running %d", w.blockID[fbc.CurrentBlock().Hash()], w.blockID[bc.CurrentBlock().Hash()]))
+				}
+				for _, b := range w.judge(fbc, fdb) {
+					addHit("after import, fresh process: "+b, j, 0, "")
+				}
+				fbc.Stop()
+			}
+		}
 		// the further valid block: an empty child of the crash-free head
 		headID := w.blockID[bc.CurrentBlock().Hash()]
 		var further *types.Block
@@ -757,6 +782,37 @@ func (w *world) run(c Case, res *vf.Result, hits *[]interface{}) ([]stepRes, []d
 			sr.Crash = append(sr.Crash, cr)
 		}
 		out = append(out, sr)
+	}
+	// process-history determinism: the same offers applied by a process that is restarted
+	// between every call end in the same database and head
+	if !c.Big {
+		rdb := newLogDB()
+		rdb.amp = c.Amp
+		gspec().MustCommit(rdb)
+		var rhead common.Hash
+		rpanic := false
+		for j, ix := range c.Batches {
+			rbc, err := newChainOn(w, rdb)
+			if err != nil {
+				addHit("process-history: restart failed", j, 0, err.Error())
+				rpanic = true
+				break
+			}
+			code, _ := insert(rbc, w.batch(ix))
+			rhead = rbc.CurrentBlock().Hash()
+			if code == ePanic {
+				rpanic = true
+				break
+			}
+			rbc.Stop()
+		}
+		if !rpanic {
+			if df := obsDiff(w.abstractDB(rdb.dump(), rhead), lastObs); df != "" {
+				addHit("process-history: a long-lived process and a process restarted between the calls end in different databases ("+df+")", len(c.Batches)-1, 0, "")
+			} else {
+				res.Count("process-history: restarted-between-calls run ends in the same database and head")
+			}
+		}
 	}
 	return out, w.damage(db, bc.CurrentBlock(), c, res, hits)
 }
@@ -855,10 +911,17 @@ func gen(seed uint64, n int, outDir, corpusDir string) {
 	var sb strings.Builder
 	sb.WriteString("From VF.C11 Require Import Model.\nLocal Open Scope N_scope.\nDefinition cases : list case := [\n")
 	distinct := map[string]bool{}
-	ncases, nbig := 0, 0
+	ncases, nbig, nsolo := 0, 0, 0
 	emit := func(c Case) {
 		w := newWorld(c.Tree)
+		w.solo = c.Solo
 		steps, dmg := w.run(c, res, &res.OracleHits)
+		if c.Solo {
+			// the model follows the ucon-like engine: cases under the solo engine are judged by the oracle only
+			res.Count("solo-engine case (oracle only)")
+			nsolo++
+			return
+		}
 		if c.Big {
 			// real-size case: judged by the oracle only
 			res.Count("real-size case (oracle only)")
@@ -891,6 +954,16 @@ func gen(seed uint64, n int, outDir, corpusDir string) {
 	}
 	for ncases < n {
 		emit(randCase(r, res))
+	}
+	// under the solo engine (no header check looks at the ancestry): a rejected block and,
+	// in later calls, its descendants - one per 12 cases
+	for nsolo < 4+n/12 {
+		c := rejectedCase(r, res)
+		for i := range c.Tree {
+			c.Tree[i].HV = 0
+		}
+		c.Solo = true
+		emit(c)
 	}
 	// a few real-size cases per run: a re-adopted long branch whose staged lookups cross
 	// youdb.IdealBatchSize without any amplification (one per 900 cases, at least one)
@@ -927,6 +1000,7 @@ func replay(file string) {
 	}
 	res := vf.NewResult("C11", 0)
 	w := newWorld(c.Tree)
+	w.solo = c.Solo
 	steps, _ := w.run(c, res, &res.OracleHits)
 	for j, s := range steps {
 		fmt.Printf("batch %d %v: %s, head %d, %d writes, %d crash points, consistent=%v %v\n", j, s.Batch, errNames[s.Err], s.Obs.Head, len(s.Log), len(s.Crash), s.Cons, s.Bad)
@@ -1406,6 +1480,17 @@ func invalidCase(r *vf.Rng, res *vf.Result) Case {
 	if r.Chance(30) {
 		c.Batches = append(c.Batches, trunk)
 	}
+	if r.Chance(60) && depthOf2(c.Tree, bad) < 7 {
+		// later calls of the same process: children / grandchildren of the rejected block, the block again
+		k1 := add(bad)
+		k2 := add(k1)
+		c.Batches = append(c.Batches, []int{k1})
+		if r.Chance(50) {
+			c.Batches = append(c.Batches, []int{bad})
+		}
+		c.Batches = append(c.Batches, []int{k1, k2})
+		res.Count("descendants of a rejected block offered in later calls")
+	}
 	res.Count("tree with forks")
 	res.Count("tree with invalid or future blocks")
 	res.Count("invalid block inside a fork case")
@@ -1417,12 +1502,89 @@ func invalidCase(r *vf.Rng, res *vf.Result) Case {
 	return c
 }
 
+// a block X that is REJECTED (any class; mostly the classes that pass the header checks
+// and ValidateBody and fail after execution while the state root they claim is on disk:
+// an empty child of the head, or a copy of an imported block, with gas used / receipt root /
+// bloom altered), and afterwards - in later calls of the same process - its children and
+// grandchildren (well-formed on top of X: built on the state X claims), X again, siblings,
+// and finally a valid block on the head.  Nothing of X or below X may ever be stored or
+// become canonical, whatever the process remembers about X.
+func rejectedCase(r *vf.Rng, res *vf.Result) Case {
+	var c Case
+	add := func(parent int, txs []int) int {
+		i := len(c.Tree)
+		c.Tree = append(c.Tree, BlockSpec{Parent: parent, Salt: i + 1, Txs: txs})
+		return i
+	}
+	rtx := func() []int {
+		if r.Chance(55) {
+			return []int{1 + r.Intn(3)}
+		}
+		return nil
+	}
+	L := 1 + r.Intn(3)
+	p := -1
+	var trunk []int
+	for i := 0; i < L; i++ {
+		p = add(p, rtx())
+		trunk = append(trunk, p)
+	}
+	tip := trunk[L-1]
+	var x int
+	switch r.Intn(4) {
+	case 0, 1: // empty child of the head: claims the head's state root
+		x = add(tip, nil)
+		res.Count("rejected block: empty child of the head")
+	case 2: // copy of the head (same parent, same content): claims the head's state root
+		x = add(c.Tree[tip].Parent, append([]int{}, c.Tree[tip].Txs...))
+		res.Count("rejected block: copy of the head")
+	default: // child of the head with new content: the claimed root is on disk only by coincidence
+		x = add(tip, []int{1 + r.Intn(3)})
+		res.Count("rejected block: child of the head with transactions")
+	}
+	switch k := r.Intn(10); {
+	case k < 6:
+		c.Tree[x].BV = []int{bvGasUsed, bvRcptRoot, bvBloom}[r.Intn(3)]
+	case k < 9:
+		c.Tree[x].BV = []int{bvTxRoot, bvRootKnown, bvRootAbsent, bvTxHashOnly}[r.Intn(4)]
+	default:
+		c.Tree[x].HV = 1 + r.Intn(2)
+	}
+	k1 := add(x, rtx())
+	k2 := add(k1, rtx())
+	k1b := add(x, []int{1 + r.Intn(3)})
+	t1 := add(tip, rtx())
+	if r.Chance(30) && L > 1 {
+		c.Batches = append(c.Batches, trunk[:L-1], trunk[L-1:])
+	} else {
+		c.Batches = append(c.Batches, trunk)
+	}
+	c.Batches = append(c.Batches, []int{x})
+	offers := [][]int{{k1}, {k1, k2}, {x}, {k2}, {x, k1}, {k1b}, {x, k1, k2}, {k1}}
+	for n := 2 + r.Intn(3); n > 0; n-- {
+		c.Batches = append(c.Batches, offers[r.Intn(len(offers))])
+	}
+	if r.Chance(60) {
+		c.Batches = append(c.Batches, []int{t1})
+		if r.Chance(40) {
+			c.Batches = append(c.Batches, []int{k1, k2})
+		}
+	}
+	res.Count("tree with invalid or future blocks")
+	res.Count("tree with shared state roots")
+	res.Count("rejected block, then its descendants in later calls")
+	return c
+}
+
 func randCase0(r *vf.Rng, res *vf.Result) Case {
 	if r.Chance(35) {
 		return forkCase(r, res)
 	}
 	if r.Chance(15) {
 		return invalidCase(r, res)
+	}
+	if r.Chance(14) {
+		return rejectedCase(r, res)
 	}
 	if r.Chance(12) {
 		return downUpCase(r, res)
